@@ -166,14 +166,24 @@ example : Kmp.findAll [97, 97] [97, 97, 97, 97] 0 = [0, 1, 2] := by decide
 
 /-! ### sort (boot.janet sort-help: median-of-three with `<=`, Hoare partition with `before?`) -/
 
-/-- ☆ PARTIAL (`sort_perm_sorted`): proved for EVERY comparator, strict or not — whenever `sort` returns, the result is a
-    permutation of the input (nothing lost or duplicated).
-    Missing part, tested by the correspondence harness + the ordered-permutation oracle, not proved:
-      `StrictWeakOrder before → ∃ r, sort le before a = .ok r ∧ Sorted before r`  (termination within the fuel, in-bounds
-      scans, orderedness of the whole recursion).  Proved towards it (the documented fall-back): `partition_step` — the
-      Hoare partition of one `sort-help` call terminates within the model's fuel, stays in bounds and establishes its
-      postcondition with both sub-ranges strictly smaller — and `partition_scan_left`. -/
-theorem sort_perm_sorted_partial {α : Type} (le before : α → α → Bool) (a r : Array α)
+/-- ☆ `sort_perm_sorted` (full strength): for EVERY strict weak order `before?` (irreflexive, asymmetric, negatively
+    transitive) and whatever `<=` picks the median, the mirror of `(sort ind before?)`
+      * returns `ok` with the model's fuel `length + 1` for the recursion, `size + 2` for each partition loop and `size + 1`
+        for each scan — i.e. the janet code terminates (recursion depth ≤ length) and no `(in a k)` is ever out of range,
+      * returns a permutation of the input of the same size,
+      * and the result is ordered: no element is `before?` an earlier one.
+    Proof: `Sort.partitionLoop_spec` (Hoare invariant with sentinels) and `Sort.sortHelp_spec` (range permutations as
+    injective index maps; the overlapping case `left' = right'` uses injectivity as the counting argument).
+    Non-strict comparators are outside the hypothesis — and outside the property ("for every strict ordering function"):
+    e.g. for `>=` on `#[2, 8, -8]` the recursion does not make progress (see the `example` below: the model runs out of any
+    fuel; the real interpreter grows its fiber stack until memory is exhausted), for others `in` raises an index error. -/
+theorem sort_perm_sorted {α : Type} (le before : α → α → Bool) (hswo : Sort.SWO before) (a : Array α) :
+    ∃ r, Sort.sort le before a = .ok r ∧ Array.Perm r a ∧ r.size = a.size ∧
+      ∀ i j (hij : i < j) (hj : j < r.size), before r[j] (r[i]'(by omega)) = false :=
+  Sort.sort_sorted le before hswo a
+
+/-- for ANY comparator (strict or not): whenever `sort` returns, nothing was lost or duplicated -/
+theorem sort_perm_any_comparator {α : Type} (le before : α → α → Bool) (a r : Array α)
     (h : Sort.sort le before a = .ok r) : Array.Perm r a ∧ r.size = a.size := by
   have hp := Sort.sort_perm le before a r h
   exact ⟨hp, by simpa using hp.toList.length_eq⟩
